@@ -17,7 +17,8 @@ ASSUME = ["roots are the longest common literal prefix of a configuration's temp
           "R8 renderer applies the configured one-to-one value mappings and defaults"]
 BUDGET = {"quick": 16000, "thorough": 1200000}
 NSHARDS = 16
-NAMES = ["ophelia", "d'agger", "back\\slash", "x_rig", "x_rig_WORK", "a_b", "model", "char_x", "v001", "WORK", "b", "a-b", "a.b", "sq010_sh0010", "w", "p_v001", "x_", "yorick ", " lead", "two words", ".", "", "..", "cafe\u0301", "\u212b", "\U00020bb7\u91ce", "Ophelia"]
+NAMES = ["ophelia", "d'agger", "back\\slash", "x_rig", "x_rig_WORK", "a_b", "model", "char_x", "v001", "WORK", "b", "a-b", "a.b", "sq010_sh0010", "w", "p_v001", "x_", "yorick ", " lead", "two words", ".", "", "..", "cafe\u0301", "\u212b", "\U00020bb7\u91ce", "Ophelia",
+         "constable", "console_table", "null_locator", "auxiliary", "com1c_mask", "nul", "CON", "aux.v2", "lpt1", "Thumbs.db", "lost+found", "@eaDir"]   # (names an operating system or a file server gives a meaning to are still names)
 
 
 def shard_args(tier, seed):
@@ -121,6 +122,7 @@ def worker(args):
     vocab = gen.Vocab(model)
     rng = random.Random(args.get("seed", 0))
     configs = list(conf.path_configs)
+    default_config = conf.default_path_config
     if args.get("order") == "server_first":
         configs = list(reversed(configs))
     # touch the configurations in the requested order (with any valid Sid of the shortest type)
@@ -185,6 +187,19 @@ def worker(args):
                 back = None
             if back is not None and not (back == x and back.type == x.type and back.fields == x.fields):
                 rec.violation("roundtrip_differs", cc, "path=%r back=%r" % (ps, back.uri if back else back))
+            if back is not None and back == x:
+                # path() without argument is path(<default configuration>) - for the Sid that came back from ANY configuration's path,
+                # and (afterwards) for an equal Sid built from the string
+                try:
+                    rec.count("path_without_argument")
+                    dflt = x.path(default_config)
+                    for who, y in (("Sid read from a path of %s" % c, back), ("equal Sid built from the string afterwards", Sid(s))):
+                        got0 = y.path()
+                        if got0 != dflt:
+                            rec.violation("path_without_argument_is_not_the_default_configuration", dict(cc, who=who), "%r vs %r" % (got0, dflt))
+                            break
+                except Exception as e:
+                    rec.violation("path_without_argument_raised", cc, repr(e))
             try:
                 back2 = Sid(path=p, config=c)     # Path object
                 if back2 != back:
